@@ -1,22 +1,22 @@
 (* Correspondence driver: reads the case file written by the Go harness (inputs, oracle answers,
    the implementation's projected observation), runs the extracted Coq model and the extracted
-   boolean property checkers, prints one verdict line per case. *)
+   boolean property checkers, prints one verdict line per problematic case and a SUMMARY line. *)
 open Model
 
 let explode (s : string) : char list = List.init (String.length s) (String.get s)
 let implode (l : char list) : string = String.of_seq (List.to_seq l)
 
 let unhex (tok : string) : char list =
-  (* tok = "x" ^ hex *)
   let n = (String.length tok - 1) / 2 in
   List.init n (fun i -> Char.chr (int_of_string ("0x" ^ String.sub tok (1 + 2 * i) 2)))
+let unhexs (tok : string) : string = implode (unhex tok)
 
 let hex (l : char list) : string =
   "x" ^ String.concat "" (List.map (fun c -> Printf.sprintf "%02x" (Char.code c)) l)
 
 let rec pos_of_int (i : int) : positive =
   if i = 1 then XH else if i land 1 = 0 then XO (pos_of_int (i lsr 1)) else XI (pos_of_int (i lsr 1))
-let n_of_int (i : int) : n = if i = 0 then N0 else Npos (pos_of_int i)
+let n_of_int (i : int) : n = if i <= 0 then N0 else Npos (pos_of_int i)
 let z_of_int (i : int) : z = if i = 0 then Z0 else if i > 0 then Zpos (pos_of_int i) else Zneg (pos_of_int (-i))
 let rec int_of_pos = function XH -> 1 | XO p -> 2 * int_of_pos p | XI p -> 2 * int_of_pos p + 1
 let int_of_n = function N0 -> 0 | Npos p -> int_of_pos p
@@ -41,7 +41,6 @@ let clause_name = function
   | CErrorSound -> "error-sound" | CUnstable -> "unstable"
 
 let content_of_toks (t : string array) (o : int) : content =
-  (* src dst typ pkgr hasfi owner group mode mtime size *)
   let fi =
     if t.(o + 4) = "1" then
       Some { fi_owner = unhex t.(o + 5); fi_group = unhex t.(o + 6); fi_mode = nt t.(o + 7);
@@ -58,102 +57,264 @@ let show_result = function
   | Err e -> "err " ^ string_of_err e
   | Ok cs -> "ok " ^ String.concat " | " (List.map show_content cs)
 
-(* ---------- C05 ---------- *)
-type c05_entry = { mutable e_c : content; mutable e_glob : gans; mutable e_matches : gmatch list;
-                   mutable e_walk : wans; mutable e_items : witem list;
-                   mutable e_gok : (char list * bool) option; mutable e_wok : bool }
+(* ---------- a parsed case ---------- *)
+type entry = { e_c : content; mutable e_glob : gans; mutable e_matches : gmatch list;
+               mutable e_walk : wans; mutable e_items : witem list;
+               mutable e_gok : (char list * bool) option; mutable e_wok : bool }
 
-let run_c05 (ic : in_channel) =
-  let id = ref "" and umask = ref N0 and packager = ref [] and mtime = ref Z0 in
-  let entries : c05_entry list ref = ref [] in
-  let stats_tbl = ref [] in
-  let impl : content list result option ref = ref None in
-  let impl_out = ref [] in
-  let unstable = ref false in
-  let n_cases = ref 0 and n_dis = ref 0 and n_fail = ref 0 and n_env = ref 0 in
-  let finish_entry e =
-    (match e.e_gok with
-     | Some (pat, lcp) -> e.e_glob <- GOk (pat, List.rev e.e_matches, lcp)
-     | None -> ());
-    if e.e_wok then e.e_walk <- WOk (List.rev e.e_items) in
-  let path_fail = ref 0 and path_n = ref 0 in
+type oent = { o_path : string; o_kind : string; o_mode : int; o_uname : string; o_gname : string; o_mtime : int;
+              o_size : int; o_sha256 : string; o_link : string; o_pax : string; o_flags : int; o_inpayload : bool; o_format : string }
+
+type case = {
+  mutable id : string; mutable format : string;
+  mutable umask : n; mutable packager : char list; mutable mtime : z;
+  mutable entries : entry list;           (* reversed while reading *)
+  mutable stats_tbl : (char list * stat) list;
+  mutable hashes : (char list * char list) list;  (* path -> sha256 hex *)
+  mutable fsizes : (string * int) list;
+  mutable impl_err : string option;       (* Some class *)
+  mutable impl_ok : bool;
+  mutable impl_out : content list;        (* reversed *)
+  mutable unstable : bool;
+  mutable info : (string * string) list;  (* reversed *)
+  mutable nums : (string * int) list;
+  mutable lists : (string * string) list; (* reversed: key, item *)
+  mutable fields : (string * string * string) list;
+  mutable scripts : (string * string * bool * string) list; (* slot, path, readable, bytes *)
+  mutable members : (string * int * int) list;
+  mutable pents : oent list; mutable cents : oent list;
+  mutable meta : (string * string) list;
+  mutable hasconffiles : bool; mutable conffiles : string list;
+  mutable oscripts : (string * string * int) list;
+  mutable digests : (string * string * string) list;
+  mutable sizes : (string * int * int) list;
+  mutable stamps : (string * int) list;
+  mutable structs : (string * bool) list;
+  mutable md5sums : (string * string) list;
+  mutable mtree : (string * string * string * string * string) list;
+  mutable triggers : string; mutable install : string option;
+  mutable filename : string; mutable decode_err : string option; mutable notes : string list;
+  mutable extra : (string * string array) list;  (* property-specific lines, reversed *)
+}
+
+let new_case () = {
+  id = ""; format = ""; umask = N0; packager = []; mtime = Z0; entries = []; stats_tbl = []; hashes = []; fsizes = [];
+  impl_err = None; impl_ok = false; impl_out = []; unstable = false; info = []; nums = []; lists = []; fields = [];
+  scripts = []; members = []; pents = []; cents = []; meta = []; hasconffiles = false; conffiles = []; oscripts = [];
+  digests = []; sizes = []; stamps = []; structs = []; md5sums = []; mtree = []; triggers = ""; install = None;
+  filename = ""; decode_err = None; notes = []; extra = [] }
+
+let finish_entry e =
+  (match e.e_gok with
+   | Some (pat, lcp) -> e.e_glob <- GOk (pat, List.rev e.e_matches, lcp)
+   | None -> ());
+  if e.e_wok then e.e_walk <- WOk (List.rev e.e_items)
+
+let oent_of t = { o_path = unhexs t.(1); o_kind = unhexs t.(2); o_mode = int_of_string t.(3); o_uname = unhexs t.(4);
+                  o_gname = unhexs t.(5); o_mtime = int_of_string t.(6); o_size = int_of_string t.(7); o_sha256 = unhexs t.(8);
+                  o_link = unhexs t.(9); o_pax = unhexs t.(10); o_flags = int_of_string t.(11); o_inpayload = (t.(12) = "1");
+                  o_format = unhexs t.(13) }
+
+(* iterate over the cases of a file; [on_path] handles the C05 path lines *)
+let iter_cases (ic : in_channel) (on_path : string array -> unit) (f : case -> unit) =
+  let c = ref (new_case ()) in
   (try
      while true do
        let line = input_line ic in
        let t = Array.of_list (String.split_on_char ' ' line) in
+       let cur = !c in
+       let last_entry () = List.hd cur.entries in
        match t.(0) with
-       | "path" ->
-         incr path_n;
-         let s = unhex t.(1) in
-         let ok = norm_file s = unhex t.(2) && norm_dir s = unhex t.(3) && as_rel s = unhex t.(4)
-                  && as_explicit_rel s = unhex t.(5) && to_nix s = unhex t.(6) in
-         if not ok then begin
-           incr path_fail;
-           Printf.printf "PATH %s DISAGREE model=%s,%s,%s,%s,%s impl=%s,%s,%s,%s,%s\n" t.(1)
-             (hex (norm_file s)) (hex (norm_dir s)) (hex (as_rel s)) (hex (as_explicit_rel s)) (hex (to_nix s))
-             t.(2) t.(3) t.(4) t.(5) t.(6)
-         end
-       | "case" ->
-         id := t.(1); entries := []; stats_tbl := []; impl := None; impl_out := []; unstable := false
-       | "umask" -> umask := nt t.(1)
-       | "packager" -> packager := unhex t.(1)
-       | "mtime" -> mtime := zt t.(1)
+       | "path" -> on_path t
+       | "case" -> c := new_case (); !c.id <- t.(1)
+       | "pcase" -> c := new_case (); !c.id <- t.(1); !c.format <- unhexs t.(2); !c.packager <- unhex t.(2)
+       | "umask" -> cur.umask <- nt t.(1)
+       | "packager" -> cur.packager <- unhex t.(1)
+       | "mtime" -> cur.mtime <- zt t.(1)
        | "noglob" -> ()
        | "entry" ->
-         entries := { e_c = content_of_toks t 1; e_glob = GErr EGlobOther; e_matches = []; e_walk = WErr EWalk;
-                      e_items = []; e_gok = None; e_wok = false } :: !entries
+         cur.entries <- { e_c = content_of_toks t 1; e_glob = GErr EGlobOther; e_matches = []; e_walk = WErr EWalk;
+                          e_items = []; e_gok = None; e_wok = false } :: cur.entries
        | "glob" ->
-         let e = List.hd !entries in
-         if t.(1) = "err" then e.e_glob <- GErr (err_of_string t.(2))
-         else e.e_gok <- Some (unhex t.(2), t.(3) = "1")
+         let e = last_entry () in
+         if t.(1) = "err" then e.e_glob <- GErr (err_of_string t.(2)) else e.e_gok <- Some (unhex t.(2), t.(3) = "1")
        | "match" ->
-         let e = List.hd !entries in
+         let e = last_entry () in
          e.e_matches <- { gm_src = unhex t.(1); gm_isdir = (t.(2) = "1");
                           gm_readlink = (if t.(3) = "1" then Some (unhex t.(4)) else None) } :: e.e_matches
        | "walk" ->
-         let e = List.hd !entries in
+         let e = last_entry () in
          if t.(1) = "err" then e.e_walk <- WErr (err_of_string t.(2)) else e.e_wok <- true
-       | "wdir" -> let e = List.hd !entries in e.e_items <- WDir (unhex t.(1), nt t.(2), zt t.(3)) :: e.e_items
-       | "wlink" -> let e = List.hd !entries in e.e_items <- WLink (unhex t.(1), unhex t.(2)) :: e.e_items
-       | "wfile" -> let e = List.hd !entries in e.e_items <- WFile (unhex t.(1), nt t.(2)) :: e.e_items
+       | "wdir" -> let e = last_entry () in e.e_items <- WDir (unhex t.(1), nt t.(2), zt t.(3)) :: e.e_items
+       | "wlink" -> let e = last_entry () in e.e_items <- WLink (unhex t.(1), unhex t.(2)) :: e.e_items
+       | "wfile" -> let e = last_entry () in e.e_items <- WFile (unhex t.(1), nt t.(2)) :: e.e_items
        | "stat" ->
-         stats_tbl := (unhex t.(1), { st_mode = nt t.(2); st_mtime = zt t.(3); st_size = zt t.(4) }) :: !stats_tbl
-       | "unstable" -> unstable := true
-       | "impl" -> if t.(1) = "err" then impl := Some (Err (err_of_string t.(2))) else impl := Some (Ok [])
-       | "out" -> impl_out := content_of_toks t 1 :: !impl_out
+         cur.stats_tbl <- (unhex t.(1), { st_mode = nt t.(2); st_mtime = zt t.(3); st_size = zt t.(4) }) :: cur.stats_tbl
+       | "fhash" -> cur.hashes <- (unhex t.(1), unhex t.(2)) :: cur.hashes;
+         cur.fsizes <- (unhexs t.(1), int_of_string t.(3)) :: cur.fsizes
+       | "unstable" -> cur.unstable <- true
+       | "impl" -> if t.(1) = "err" then cur.impl_err <- Some t.(2) else cur.impl_ok <- true
+       | "out" -> cur.impl_out <- content_of_toks t 1 :: cur.impl_out
+       | "info" -> cur.info <- (unhexs t.(1), unhexs t.(2)) :: cur.info
+       | "num" -> cur.nums <- (unhexs t.(1), int_of_string t.(2)) :: cur.nums;
+         if unhexs t.(1) = "mtime" then cur.mtime <- zt t.(2);
+         if unhexs t.(1) = "umask" then cur.umask <- nt t.(2)
+       | "list" -> cur.lists <- (unhexs t.(1), unhexs t.(2)) :: cur.lists
+       | "field" -> cur.fields <- (unhexs t.(1), unhexs t.(2), unhexs t.(3)) :: cur.fields
+       | "script" -> cur.scripts <- (unhexs t.(1), unhexs t.(2), t.(3) = "1", unhexs t.(4)) :: cur.scripts
+       | "member" -> cur.members <- (unhexs t.(1), int_of_string t.(2), int_of_string t.(3)) :: cur.members
+       | "pent" -> cur.pents <- oent_of t :: cur.pents
+       | "cent" -> cur.cents <- oent_of t :: cur.cents
+       | "meta" -> cur.meta <- (unhexs t.(1), unhexs t.(2)) :: cur.meta
+       | "hasconffiles" -> cur.hasconffiles <- (t.(1) = "1")
+       | "conffile" -> cur.conffiles <- unhexs t.(1) :: cur.conffiles
+       | "oscript" -> cur.oscripts <- (unhexs t.(1), unhexs t.(2), int_of_string t.(3)) :: cur.oscripts
+       | "digest" -> cur.digests <- (unhexs t.(1), unhexs t.(2), unhexs t.(3)) :: cur.digests
+       | "size" -> cur.sizes <- (unhexs t.(1), int_of_string t.(2), int_of_string t.(3)) :: cur.sizes
+       | "stamp" -> cur.stamps <- (unhexs t.(1), int_of_string t.(2)) :: cur.stamps
+       | "struct" -> cur.structs <- (unhexs t.(1), t.(2) = "1") :: cur.structs
+       | "md5sum" -> cur.md5sums <- (unhexs t.(1), unhexs t.(2)) :: cur.md5sums
+       | "mtree" -> cur.mtree <- (unhexs t.(1), unhexs t.(2), unhexs t.(3), unhexs t.(4), unhexs t.(5)) :: cur.mtree
+       | "triggers" -> cur.triggers <- unhexs t.(1)
+       | "install" -> cur.install <- Some (unhexs t.(1))
+       | "filename" -> cur.filename <- unhexs t.(1)
+       | "decode" -> cur.decode_err <- Some (unhexs t.(2))
+       | "note" -> cur.notes <- unhexs t.(1) :: cur.notes
+       | "rawlen" -> ()
        | "end" ->
-         incr n_cases;
-         List.iter finish_entry !entries;
-         let ces = List.rev_map (fun e -> (e.e_c, { eo_glob = e.e_glob; eo_walk = e.e_walk })) !entries in
-         let impl_r = match !impl with
-           | Some (Ok _) -> Ok (List.rev !impl_out)
-           | Some (Err e) -> Err e
-           | None -> Err EGlobOther in
-         let in_env = oracle_okb owned_paths !stats_tbl !umask !mtime ces in
-         if not in_env then incr n_env;
-         let model_r = prep owned_paths !stats_tbl ces !umask !packager !mtime in
-         let agree = (model_r = impl_r) in
-         let clauses = check_C05 owned_paths !packager ces impl_r in
-         let clauses = if !unstable then CUnstable :: clauses else clauses in
-         let mclauses = check_C05 owned_paths !packager ces model_r in
-         if not agree then incr n_dis;
-         if clauses <> [] then incr n_fail;
-         if (not agree) || clauses <> [] || mclauses <> [] then begin
-           Printf.printf "CASE %s %s impl_fails=[%s] model_fails=[%s]\n" !id
-             (if agree then "agree" else "DISAGREE")
-             (String.concat "," (List.map clause_name clauses))
-             (String.concat "," (List.map clause_name mclauses));
-           if not agree then
-             Printf.printf "  model: %s\n  impl:  %s\n" (show_result model_r) (show_result impl_r)
-         end
+         List.iter finish_entry cur.entries;
+         cur.entries <- List.rev cur.entries; cur.impl_out <- List.rev cur.impl_out;
+         cur.info <- List.rev cur.info; cur.lists <- List.rev cur.lists; cur.fields <- List.rev cur.fields;
+         cur.scripts <- List.rev cur.scripts; cur.members <- List.rev cur.members; cur.pents <- List.rev cur.pents;
+         cur.cents <- List.rev cur.cents; cur.meta <- List.rev cur.meta; cur.conffiles <- List.rev cur.conffiles;
+         cur.oscripts <- List.rev cur.oscripts; cur.digests <- List.rev cur.digests; cur.sizes <- List.rev cur.sizes;
+         cur.stamps <- List.rev cur.stamps; cur.md5sums <- List.rev cur.md5sums; cur.mtree <- List.rev cur.mtree;
+         cur.extra <- List.rev cur.extra;
+         f cur
        | "" -> ()
-       | other -> failwith ("unknown line: " ^ other)
+       | other -> cur.extra <- (other, t) :: cur.extra
      done
-   with End_of_file -> ());
+   with End_of_file -> ())
+
+let ces_of (c : case) = List.map (fun e -> (e.e_c, { eo_glob = e.e_glob; eo_walk = e.e_walk })) c.entries
+
+let report id agree impl_fails model_fails detail =
+  Printf.printf "CASE %s %s impl_fails=[%s] model_fails=[%s]\n" id (if agree then "agree" else "DISAGREE")
+    (String.concat "," impl_fails) (String.concat "," model_fails);
+  List.iter (fun l -> Printf.printf "  %s\n" l) detail
+
+(* ---------- C05 ---------- *)
+let run_c05 ic =
+  let n_cases = ref 0 and n_dis = ref 0 and n_fail = ref 0 and n_env = ref 0 in
+  let path_fail = ref 0 and path_n = ref 0 in
+  let on_path t =
+    incr path_n;
+    let s = unhex t.(1) in
+    let ok = norm_file s = unhex t.(2) && norm_dir s = unhex t.(3) && as_rel s = unhex t.(4)
+             && as_explicit_rel s = unhex t.(5) && to_nix s = unhex t.(6) in
+    if not ok then begin
+      incr path_fail;
+      Printf.printf "PATH %s DISAGREE model=%s,%s,%s,%s,%s impl=%s,%s,%s,%s,%s\n" t.(1)
+        (hex (norm_file s)) (hex (norm_dir s)) (hex (as_rel s)) (hex (as_explicit_rel s)) (hex (to_nix s))
+        t.(2) t.(3) t.(4) t.(5) t.(6)
+    end in
+  iter_cases ic on_path (fun c ->
+      incr n_cases;
+      let ces = ces_of c in
+      let impl_r = match c.impl_err with
+        | Some e -> Err (err_of_string e)
+        | None -> if c.impl_ok then Ok c.impl_out else Err EGlobOther in
+      let in_env = oracle_okb owned_paths c.stats_tbl c.umask c.mtime ces in
+      if not in_env then incr n_env;
+      let model_r = prep owned_paths c.stats_tbl ces c.umask c.packager c.mtime in
+      let agree = (model_r = impl_r) in
+      let clauses = check_C05 owned_paths c.packager ces impl_r in
+      let clauses = if c.unstable then CUnstable :: clauses else clauses in
+      let mclauses = check_C05 owned_paths c.packager ces model_r in
+      if not agree then incr n_dis;
+      if clauses <> [] then incr n_fail;
+      if (not agree) || clauses <> [] || mclauses <> [] then
+        report c.id agree (List.map clause_name clauses) (List.map clause_name mclauses)
+          (if agree then [] else ["model: " ^ show_result model_r; "impl:  " ^ show_result impl_r]));
   Printf.printf "SUMMARY cases=%d disagreements=%d impl_failures=%d path_cases=%d path_disagreements=%d outside_envelope=%d\n"
     !n_cases !n_dis !n_fail !path_n !path_fail !n_env
+
+(* ---------- package-level helpers ---------- *)
+let fmt_of_string = function
+  | "deb" -> FDeb | "rpm" -> FRpm | "apk" -> FApk | "ipk" -> FIpk | _ -> FArch
+
+let kind_of_string = function "dir" -> Some KDir | "symlink" -> Some KSymlink | "file" -> Some KFile | _ -> None
+
+let pentry_of_oent (o : oent) : pentry option =
+  match kind_of_string o.o_kind with
+  | None -> None
+  | Some k ->
+    Some { pe_path = explode o.o_path; pe_kind = k; pe_mode = n_of_int o.o_mode; pe_uname = explode o.o_uname;
+           pe_gname = explode o.o_gname; pe_mtime = z_of_int o.o_mtime;
+           pe_data = (if k = KFile then DHash (explode o.o_sha256) else DNone);
+           pe_link = explode o.o_link; pe_flags = n_of_int o.o_flags; pe_inpayload = o.o_inpayload }
+
+let kind_name = function KFile -> "file" | KDir -> "dir" | KSymlink -> "symlink"
+let show_pentry (e : pentry) =
+  Printf.sprintf "%s %s %o %s:%s mt=%d %s link=%s flags=%d inpayload=%b" (implode e.pe_path) (kind_name e.pe_kind)
+    (int_of_n e.pe_mode) (implode e.pe_uname) (implode e.pe_gname) (int_of_z e.pe_mtime)
+    (match e.pe_data with DNone -> "-" | DSrc p -> "src:" ^ implode p | DChangelog -> "changelog" | DHash h -> "sha256:" ^ String.sub (implode h) 0 (min 12 (List.length h)))
+    (implode e.pe_link) (int_of_n e.pe_flags) e.pe_inpayload
+
+let c01_clause_name = function
+  | PPathsExact -> "paths-exact" | PPathsUnique -> "paths-unique" | PKind -> "kind" | PMode -> "mode" | POwner -> "owner"
+  | PGroup -> "group" | PMtime -> "mtime" | PData -> "data" | PLink -> "link" | PGhostPayload -> "ghost-payload"
+
+(* does the model's payload entry agree with the decoded one (data via the hash table; clock mtimes are free) *)
+let pentry_agrees (c : case) (m : pentry) (o : pentry) : bool =
+  m.pe_path = o.pe_path && m.pe_kind = o.pe_kind
+  && (m.pe_kind = KSymlink && c.format <> "deb" && c.format <> "rpm" || m.pe_mode = o.pe_mode)
+  && m.pe_uname = o.pe_uname && m.pe_gname = o.pe_gname
+  && (m.pe_mtime = tzero || m.pe_mtime = o.pe_mtime)
+  && m.pe_link = o.pe_link && m.pe_flags = o.pe_flags && m.pe_inpayload = o.pe_inpayload
+  && (match m.pe_data, o.pe_data with
+      | DSrc p, DHash h -> (not m.pe_inpayload) || (match lookup_hash c.hashes p with Some h' -> h = h' | None -> false)
+      | _, _ -> true)
+
+let model_prepared (c : case) =
+  prep owned_paths c.stats_tbl (ces_of c) c.umask c.packager c.mtime
+
+let run_c01 ic =
+  let n = ref 0 and n_dis = ref 0 and n_fail = ref 0 and n_skip = ref 0 and n_err = ref 0 in
+  iter_cases ic (fun _ -> ()) (fun c ->
+      incr n;
+      let f = fmt_of_string c.format in
+      match c.impl_err, c.decode_err with
+      | Some cls, _ ->
+        incr n_err;
+        (* the implementation failed: the model must fail the same way for planning errors *)
+        (match model_prepared c with
+         | Ok _ when List.mem cls ["collision"; "notexist"; "globnomatch"; "invalidtype"] ->
+           incr n_dis; report c.id false [] [] ["impl failed with " ^ cls ^ " but the planning model succeeds"]
+         | _ -> ())
+      | None, Some d -> incr n_fail; report c.id true ["undecodable"] [] [d]
+      | None, None ->
+        match model_prepared c with
+        | Err e -> incr n_dis; report c.id false [] [] ["planning model fails with " ^ string_of_err e ^ " but the package was built"]
+        | Ok cs ->
+          let obs = List.filter_map pentry_of_oent c.pents in
+          let odd = List.length obs <> List.length c.pents in
+          let model = payload_of f c.mtime cs in
+          let agree = (not odd) && List.length model = List.length obs && List.for_all2 (pentry_agrees c) model obs in
+          let clauses = check_C01 f c.hashes cs obs in
+          let mclauses = check_C01 f c.hashes cs model in
+          if not agree then incr n_dis;
+          if clauses <> [] || odd then incr n_fail;
+          if (not agree) || clauses <> [] || mclauses <> [] || odd then
+            report c.id agree ((if odd then ["unknown-kind"] else []) @ List.sort_uniq compare (List.map c01_clause_name clauses))
+              (List.sort_uniq compare (List.map c01_clause_name mclauses))
+              (if agree then [] else
+                 ("model payload:" :: List.map (fun e -> "  " ^ show_pentry e) model)
+                 @ ("decoded payload:" :: List.map (fun e -> "  " ^ show_pentry e) obs)));
+  Printf.printf "SUMMARY cases=%d disagreements=%d impl_failures=%d impl_errors=%d outside_envelope=%d\n" !n !n_dis !n_fail !n_err !n_skip
 
 let () =
   match Sys.argv with
   | [| _; "C05"; file |] -> let ic = open_in file in run_c05 ic; close_in ic
+  | [| _; "C01"; file |] -> let ic = open_in file in run_c01 ic; close_in ic
   | _ -> prerr_endline "usage: driver <property> <casefile>"; exit 2
